@@ -121,11 +121,11 @@ async fn _validate_cas_object_from_async_read<R: AsyncRead + Unpin>(
         });
 
         // next offset is computed with: previous offset + length of chunk header + chunk compressed_length
-        compressed_chunk_boundary_offsets.push(
-            compressed_chunk_boundary_offsets.last().unwrap_or(&0)
-                + size_of::<CASChunkHeader>() as u32
-                + chunk_compressed_len as u32,
-        );
+        let boundary = (size_of::<CASChunkHeader>() as u32)
+            .checked_add(chunk_compressed_len as u32)
+            .and_then(|len| compressed_chunk_boundary_offsets.last().unwrap_or(&0).checked_add(len))
+            .ok_or_else(|| CasObjectError::FormatError(anyhow!("chunk data exceeds the 32 bit offsets of the xorb format")))?;
+        compressed_chunk_boundary_offsets.push(boundary);
     };
 
     // validating footer against chunks contents
@@ -162,10 +162,10 @@ async fn _validate_cas_object_from_async_read<R: AsyncRead + Unpin>(
             }
         }
 
-        let mut prefixsum = 0;
+        let mut prefixsum: u64 = 0;
         for (parsed, computed_chunk) in cas_object_info.unpacked_chunk_offsets.iter().zip(chunk_hash_and_size.iter()) {
-            prefixsum += computed_chunk.length as u32;
-            if *parsed != prefixsum {
+            prefixsum += computed_chunk.length as u64;
+            if *parsed as u64 != prefixsum {
                 return Err(CasObjectError::FormatError(anyhow!(
                     "found unpacked chunk offset in xorb footer that does not match the corresponding chunk's actual unpacked length"
                 )));
@@ -180,6 +180,13 @@ async fn _validate_cas_object_from_async_read<R: AsyncRead + Unpin>(
     let ret = db.finalize(staging);
     if ret.hash() != hash {
         return Err(CasObjectError::FormatError(anyhow!("xorb computed hash does not match provided hash")));
+    }
+
+    // A generated footer stores the unpacked offsets in 32 bits.
+    if maybe_cas_object.is_none()
+        && chunk_hash_and_size.iter().map(|chunk| chunk.length as u64).sum::<u64>() > u32::MAX as u64
+    {
+        return Err(CasObjectError::FormatError(anyhow!("unpacked chunk data exceeds the 32 bit offsets of the xorb format")));
     }
 
     let cas_object = maybe_cas_object
